@@ -333,7 +333,7 @@ def run(chk):
     for c in corpus:
         cases.append((int(c["bits"], 16), c["thr"], c["sig"], c["sep"]))
     ncorpus = len(cases)
-    vals = f64_classes(chk.rng, 700 if quick else 12000)
+    vals = f64_classes(chk.rng, 700 if quick else 6000)
     for b in vals:
         cases.append((b, 6, 6, "_"))            # default settings
         thr, sig, sep = settings(chk.rng)
@@ -342,7 +342,7 @@ def run(chk):
             thr, sig, sep = settings(chk.rng)
             cases.append((b, thr, sig, sep))
     # integers x every separator x thresholds around their length (grouping decisions)
-    for _ in range(300 if quick else 4000):
+    for _ in range(300 if quick else 3000):
         nd = chk.rng.randrange(1, 17)
         z = chk.rng.randrange(10 ** (nd - 1), min(10 ** nd, 2 ** 53))
         thr = max(0, nd + chk.rng.choice([-1, 0, 0, 1, 2]))
@@ -350,14 +350,14 @@ def run(chk):
     seen = set()
     cases = [c for c in cases if not (c in seen or seen.add(c))]
 
-    impl = common.run_harness(binary, "fmt", [line_of(c) for c in cases])
+    impl = common.run_harness(binary, "fmt", [line_of(c) for c in cases], timeout=3000)
     items = []
     for n, c in enumerate(cases):
         o = impl[n]
         obs = "P" if o.startswith("P:") else o.split("|")[0]
         items.append((coq_case(c), obs))
-    bad = common.coq_mismatches(["NumFmt.Model", "NumFmt.Classify", "NumFmt.Exec"], items, "c14",
-                                shard_size=max(250, -(-len(items) // common.NPROC)),
+    bad = common.coq_mismatches(["NumFmt.Model", "NumFmt.Classify", "NumFmt.Exec"], items, "c14", timeout=3000,
+                                shard_size=max(250, min(500, -(-len(items) // common.NPROC))),   # small shards: a loaded machine must not hit the per-shard timeout
                                 prelude="From Coq Require Import PrimFloat ZArith.")   # one wave of coqc processes
 
     # property oracle on every case
